@@ -18,7 +18,7 @@ VERIF = os.path.dirname(os.path.dirname(os.path.abspath(__file__)))
 REPO = "/repo"
 SEED = os.environ.get("SEED_DIR", "/tmp/seed")
 # round 2 changes are kept as <ID>_C / <ID>_D
-RENAME = {"A": "C", "B": "D"} if os.environ.get("SEED_ROUND") == "2" else {"A": "A", "B": "B"}
+RENAME = {"2": {"A": "C", "B": "D"}, "3": {"A": "E", "B": "F"}}.get(os.environ.get("SEED_ROUND", "1"), {"A": "A", "B": "B"})
 ENV = dict(os.environ, CARGO_NET_OFFLINE="true", CARGO_TARGET_DIR=SEED + "/target_shared")
 ALL = ["C%02d" % i for i in range(1, 20)]
 
@@ -112,7 +112,7 @@ def main():
             meta = {
                 "property": pid,
                 "variant": RENAME[x],
-                "round": 2 if os.environ.get("SEED_ROUND") == "2" else 1,
+                "round": int(os.environ.get("SEED_ROUND", "1")),
                 "author": "independent sub-agent given only the property text and a scratch worktree",
                 "agent_meta": meta_all.get(x, {}),
                 "confirmed_by_me": conf,
